@@ -23,6 +23,8 @@ THEOREMS = [
     "C16_ids_stable",
     "C16_ids_stable_without_cycle_hyp_refuted",
     "C16_name_key_stable",
+    "C16_finalize_local",
+    "C16_finalize_skips_older_ids",
     "C16_entries_closed",
     "C16_entries_closed_after_failed_batch_refuted",
     "C16_readd_same_id",
@@ -178,6 +180,40 @@ def key_histories():
     return hs
 
 
+def untagged_histories():
+    """systematic: an UNTAGGED enum whose variant types have higher ids (later-sorted definitions of the batch,
+    or definitions of the same root document), i.e. it is finalized BEFORE them and gets no FromStr/Display;
+    followed by unrelated calls of every kind, which must leave it (entry, has_impl, rendered impls) alone"""
+    e1, e2 = {"type": "string", "enum": ["a", "b"]}, {"type": "string", "enum": ["c", "d"]}
+    r_ = lambda k: {"$ref": "#/definitions/" + k}                     # noqa
+    batches = {
+        "two-enums": {"Alpha": {"oneOf": [r_("Beta"), r_("Gamma")]}, "Beta": e1, "Gamma": e2},
+        "enum-and-newtype": {"Alpha": {"oneOf": [r_("Beta"), r_("Gamma")]}, "Beta": e1,
+                             "Gamma": {"type": "integer", "enum": [1, 2]}},
+        "nested": {"Alpha": {"oneOf": [r_("Beta"), r_("Gamma")]}, "Beta": {"oneOf": [r_("Delta"), r_("Gamma")]},
+                   "Gamma": e2, "Delta": e1},
+        "kebab": {"a-first": {"oneOf": [r_("b-second"), r_("c-third")]}, "b-second": e1, "c-third": e2},
+    }
+    later = [{"op": "add", "schema": dict(_obj(x=_S), title="Unrelated")},
+             {"op": "add", "schema": {"type": "array", "items": {"type": "integer"}}},
+             {"op": "refs", "defs": {"Zeta": _obj(z=_S)}},
+             {"op": "root", "doc": dict(_obj(r={"type": "boolean"}), title="TopDoc")},
+             {"op": "add", "schema": _obj(k=_S), "name": "Hinted"}]
+    hs = []
+    for bname, defs in batches.items():
+        first = sorted(defs)[0]
+        origins = [("batch", {"op": "refs", "defs": defs}),
+                   ("root-definitions", {"op": "root", "doc": dict(_obj(u=r_(first)), title="Doc", definitions=defs)})]
+        for oname, o in origins:
+            hs.append({"steps": copy.deepcopy([o] + later), "coverage": "untagged/%s/%s" % (bname, oname)})
+            for k, st in enumerate(later):
+                hs.append({"steps": copy.deepcopy([o, st]), "coverage": "untagged/%s/%s/%d" % (bname, oname, k)})
+            # the untagged enum itself is then used by a later call
+            hs.append({"steps": copy.deepcopy([o, {"op": "add", "schema": _obj(w=r_(first)), "name": "User"}, later[0]]),
+                       "coverage": "untagged/%s/%s/used" % (bname, oname)})
+    return hs
+
+
 def root_histories():
     """systematic, seed independent: several titled add_root_schema calls on ONE space (different titles,
     self references through "#", with and without definitions), interleaved with batches and reference probes"""
@@ -293,6 +329,13 @@ class Gen:
             defs[nm] = self.definition(refs)
             if self.last_kind:
                 self.named.append((nm, defs[nm], self.last_kind))
+        if len(names) >= 3 and self.rnd.random() < 0.35:
+            # an untagged enum that is converted and finalized BEFORE its variant types (BTreeMap order = id order)
+            o = sorted(names)
+            defs[o[0]] = {"oneOf": [{"$ref": "#/definitions/" + o[1]}, {"$ref": "#/definitions/" + o[2]}]}
+            defs[o[1]] = {"type": "string", "enum": self.rnd.sample(["a", "b", "c"], 2)}
+            defs[o[2]] = {"type": "string", "enum": self.rnd.sample(["x", "y", "z"], 2)}
+            self.named = [x for x in self.named if x[0] not in o[:3]]
         self.defs.update(defs)
         return defs
 
@@ -405,11 +448,14 @@ def kids_of(e):
 
 
 def mask(e):
-    """structural key: the entry without its type name, child ids and finalize-computed fields"""
+    """structural key: the WHOLE entry (finalize-computed bespoke impls included) without its type name and
+    child ids.  For an entry of a batch the key is taken from the dump at the END of the call that created it
+    (children from the pre-break_cycles snapshot), so a later call that re-finalizes an older entry shows up as a
+    difference between model and dump."""
     def m(x):
         if isinstance(x, dict):
             return {k: (None if k in ("type_id", "id", "ids", "key", "value", "params") else m(v))
-                    for k, v in x.items() if k not in ("bespoke",)}
+                    for k, v in x.items()}
         if isinstance(x, list):
             return [m(v) for v in x]
         return x
@@ -562,7 +608,7 @@ def derive_call(nb, step, d0, rec):
         e = p["entries"].get(str(i))
         if e is None:
             raise TraceError("conversion allocated id %d without an entry" % i)
-        assigned.append(tentry(nb, e, kids_of(e)))
+        assigned.append(tentry(nb, d1["entries"].get(str(i), e), kids_of(e)))
     defs = []
     done = 0
     for j in range(n):
@@ -578,8 +624,9 @@ def derive_call(nb, step, d0, rec):
             if done != j:
                 raise TraceError("converted definitions are not a prefix")
             done = j + 1
-            ins = ("InsNamed %d %s" % (nb.name(e["name"]), tbody(nb, e, kids_of(e)))) if is_named(e) \
-                else "InsRaw %s" % tbody(nb, e, kids_of(e))
+            ek = d1["entries"].get(str(rid), e)        # key as finalized by THIS call, children before snips
+            ins = ("InsNamed %d %s" % (nb.name(e["name"]), tbody(nb, ek, kids_of(e)))) if is_named(e) \
+                else "InsRaw %s" % tbody(nb, ek, kids_of(e))
         scr = assigned if (j == 0 and (ok or done >= 1)) else []
         defs.append("mkDef %d [%s] (%s)" % (nb.key(inv[rid]), "; ".join(scr), ins))
     if not ok:
@@ -784,6 +831,24 @@ def direct_oracles(steps, recs):
                 if v1 != v0 or e0 != e1:
                     out.append({"kind": "entry-changed-by-later-call", "step": t, "id": int(i),
                                 "returned_or_reachable": int(i) in reach, "before": v0, "after": v1})
+        # clause 1 on the OUTPUT: every rendered item / impl that existed before the call is still there, token
+        # for token (a call may only ADD items)
+        if prev is not None and rend["r"] == "ok" and prev["render"]["r"] == "ok":
+            new = {}
+            for sg in rend.get("sigs", []):
+                new[tuple(map(str, sg))] = new.get(tuple(map(str, sg)), 0) + 1
+            gone = []
+            for sg in prev["render"].get("sigs", []):
+                k = tuple(map(str, sg))
+                if new.get(k, 0) > 0:
+                    new[k] -= 1
+                else:
+                    gone.append(sg[:3])
+            if gone:
+                after = [sg[:3] for sg in rend.get("sigs", []) if any(sg[2] == g[2] for g in gone)]
+                out.append({"kind": "rendered-definition-of-existing-type-changed", "step": t, "op": st["op"],
+                            "items_before_that_changed_or_vanished": gone[:8],
+                            "items_after_for_those_types": after[:16]})
         if "panic" in views:
             out.append({"kind": "introspection-panics", "step": t, "msg": views["panic"]})
         # a returned id must resolve
@@ -887,7 +952,8 @@ def classify(steps, recs, v):
                         for s, r in zip(steps[:t + 1], recs[:t + 1]))
     if failed_before and v["kind"] in ("entry-changed-by-later-call", "returned-id-does-not-resolve",
                                        "child-id-does-not-resolve", "introspection-panics", "render-fails",
-                                       "reference-resolves-to-other-type", "root-id-names-other-type"):
+                                       "reference-resolves-to-other-type", "root-id-names-other-type",
+                                       "rendered-definition-of-existing-type-changed"):
         return "C16-4"
     if v["kind"] in ("readd-returns-different-id", "readd-adds-definitions") and v["op"] in ("refs", "root"):
         return "C16-1"
@@ -1072,13 +1138,13 @@ def run(ctx):
     corpus = load_corpus()
     hists = [{"steps": c["steps"], "settings": c.get("settings", {}), "corpus": c["file"],
               "expect": c.get("expect", []), "must_reject": c.get("must_reject", [])} for c in corpus]
-    cover = coverage_histories() + root_histories() + key_histories()
+    cover = coverage_histories() + root_histories() + key_histories() + untagged_histories()
     for c in cover:
         hists.append({"steps": c["steps"], "seed_path": "coverage:" + c["coverage"], "coverage": c["coverage"],
                       "key": c.get("key")})
     for k in range(n_hist):
         hists.append({"steps": gen_history(rnd, maxlen), "seed_path": "%d/%d" % (ctx.seed, k)})
-    ctx.log("histories: %d corpus + %d systematic (named kinds x origins x re-add forms; titled roots; non-Pascal definition keys) + %d generated (max %d calls)" % (
+    ctx.log("histories: %d corpus + %d systematic (named kinds x origins x re-add forms; titled roots; non-Pascal definition keys; untagged enums before their variants) + %d generated (max %d calls)" % (
         len(corpus), len(cover), n_hist, maxlen))
 
     okm, outm = vlib.coq_make(["theories/Algo/Space.vo"])
